@@ -234,8 +234,19 @@ func ruleLintNarrow(c *Ctx, r *Rep) {
 	// a 64-bit number changes its sign when converted between signed and unsigned: a configured value of 2^63 and above
 	// would become negative (a negative serial number, a negative count)
 	for _, fn := range c.Funcs {
-		if fn.Pkg == nil || !strings.Contains(fn.Pkg.Pkg.Path(), "/config") {
-			continue // configured numbers enter through the configuration packages; internal counts are not at stake
+		if fn.Pkg == nil {
+			continue
+		}
+		// configured numbers enter through the configuration packages; elsewhere only numbers parsed from text are at
+		// stake (an OID arc), internal counts are not
+		inConfig := strings.Contains(fn.Pkg.Pkg.Path(), "/config")
+		parsed := func(v ssa.Value) bool {
+			ex, ok := v.(*ssa.Extract)
+			if !ok {
+				return false
+			}
+			call, ok := ex.Tuple.(*ssa.Call)
+			return ok && strings.HasPrefix(calleeFullName(call), "strconv.ParseUint")
 		}
 		n := 0
 		for _, b := range fn.Blocks {
@@ -258,6 +269,9 @@ func ruleLintNarrow(c *Ctx, r *Rep) {
 				unsigned := func(b *types.Basic) bool { return b.Info()&types.IsUnsigned != 0 }
 				if !wide(to.Kind()) || !wide(from.Kind()) || unsigned(to) == unsigned(from) || !unsigned(from) {
 					continue // only unsigned -> signed of full width loses the top half
+				}
+				if !inConfig && !parsed(cv.X) {
+					continue
 				}
 				n++
 				_, ub := boundsFromGuards(b, cv.X)
